@@ -17,7 +17,7 @@ LEVEL_NOTE = ("Trusted: Lean kernel (+ standard axioms), kernel translator, N la
               "hand model of __setitem__'s dispatch (tied by correspondence). Row selectors with repeats are outside the property "
               "(numpy's last-write-wins then applies) but are still compared.")
 TECHNIQUE = "Lean 4 proof of setitem model = cell-wise writes on list of rows; kernels translated from source; correspondence"
-DESIGN_REF = "6.3"
+DESIGN_REF = "7"
 LEAN_MODULES = ["NpsVerif.Props.C03"]
 KERNELS = ("view2_ends", "calc_lengths", "pos_col_slice", "col_slice_slice", "col_slice_int")
 RULE = ("cases = ragged array with distinct cells (exhaustive shapes <=3x3 + random) x index expression (C02 grammar, non-repeating "
@@ -75,7 +75,7 @@ def cases(rng, tier):
     out = []
     def add(lens, idx, val, dt=None):
         out.append({"lens": lens, "idx": idx, "val": val, "dtype": dt or rng.choice(["int64", "int32", "uint8", "float64", "bool", "int8", "uint64", "float32", "int16"]),
-                    "vseed": rng.randint(0, 999), "variant": rng.randint(0, 11)})
+                    "vseed": rng.randint(0, 999), "variant": rng.randint(0, 29)})
     shapes = gens.shapes_exhaustive(3, 3) if tier == "quick" else gens.shapes_exhaustive(4, 3)
     for lens in shapes:
         n, m = len(lens), max(lens) if lens else 0
